@@ -162,6 +162,26 @@ def depth_probe(res):
     return 0
 
 
+def arity_sweep(tier):
+    """every element whose children are counted, with every small list of children it must refuse or accept: fixed-arity
+    elements with 0-4 children, mmultiscripts with every arrangement of scripts, <none/> and <mprescripts/> up to 5 (6)
+    children, table parts outside / inside tables"""
+    import itertools
+    out = []
+    atoms = ["<mi>x</mi>", "<mn>1</mn>", "<mrow/>", "<none/>"]
+    for tag in ("mfrac", "mroot", "msub", "msup", "msubsup", "munder", "mover", "munderover", "msqrt", "menclose", "mpadded", "mstyle", "mphantom",
+                "merror", "mtable", "mtr", "mlabeledtr", "mtd", "semantics", "mfenced", "maction"):
+        for n in range(0, 5):
+            kids = "".join(atoms[(n + i) % len(atoms)] for i in range(n))
+            out.append("<math><%s>%s</%s></math>" % (tag, kids, tag))
+            out.append("<math><mrow><mi>a</mi><mo>+</mo><%s>%s</%s></mrow></math>" % (tag, kids, tag))
+    ms = ["<mi>x</mi>", "<none/>", "<mprescripts/>"]
+    for n in range(0, 6 if tier == "quick" else 7):
+        for combo in itertools.product(ms, repeat=n):
+            out.append("<math><mmultiscripts>%s</mmultiscripts></math>" % "".join(combo))
+    return out
+
+
 def histories(res):
     tier = res.tier if res else "quick"
     rng = random.Random((res.seed if res else 1) * 4099 + 8)
@@ -173,7 +193,14 @@ def histories(res):
     for i in range(n):
         h = gen_history(rng, names, kinds, cmds, bodies, rng.randint(3, 40))
         hs.append((h, rng.choice(FINAL)))
-    return hs, {"preference_names": len(names), "navigation_commands": len(cmds)}
+    # the arity sweep: ill-formed and borderline elements one after the other in one session, a query after each
+    sweep = arity_sweep(tier)
+    for i in range(0, len(sweep), 40):
+        h = [["set_rules_dir", C.RULES]]
+        for m in sweep[i:i + 40]:
+            h += [["set_mathml", m], rng.choice([["get_spoken_text"], ["get_braille", ""], ["do_navigate_command", "ZoomIn"], ["get_overview_text"]])]
+        hs.append((h, rng.choice(FINAL)))
+    return hs, {"preference_names": len(names), "navigation_commands": len(cmds), "arity_sweep_inputs": len(sweep)}
 
 
 def oracle(res):
